@@ -1123,8 +1123,10 @@ func TestC09(t *testing.T) {
 	r.Rule = "offenders = every valid packet of rtr.CasesP (all path shapes x position x interface/arrival choice) given exactly one defect " +
 		"(cause) out of the list in coverage.causes; sweeps: (A) causes x {SCION,EPIC} x ext-header layouts x L4 {UDP, none, TCP, SCMP echo/" +
 		"traceroute request, SCMP error} x {single,multi BR} x SCMP auth {off,on}; (B) every SCMP type 0..255 (and truncated SCMP headers) as the " +
-		"offender's L4 on one representative case per cause and ingress kind; (C) size sweep: paths stretched to every hop count up to 64, v4/v6 " +
-		"source, payload sizes putting the reply at 1232-2..1232+2 plus 0/1/1500/max, all SCMP header sizes (8/20/28), auth on/off. " +
+		"offender's L4 on one representative case per cause and ingress kind; (C) size sweep: paths stretched to every hop count up to 64, offender " +
+		"source host {IPv4, IPv6, service} x destination host {IPv4, IPv6, service} x router address {IPv4, IPv6}, payload sizes putting the reply at " +
+		"1232-2..1232+2 plus 0/1/1500/max, all SCMP header sizes (8/20/28), auth on/off; sweep A also rotates the offender's address kinds and is " +
+		"repeated with the IPv6 router address. " +
 		"distinct key = case + cause + variant; non-trivial = all"
 	causes := c09Causes()
 	bubble(t, func(t *testing.T) {
@@ -1445,7 +1447,7 @@ func TestC09(t *testing.T) {
 		"reply path: must be the offender's hop/info fields reversed with consistent pointers; whether its SegID/current hop let it travel back is C10's subject and not judged here",
 		"authenticator: recomputed with an own AES-CMAC over the input of authenticator-option.rst under the fake DRKey provider's AS-host key; traffic classes on which the doc's and the implementation's reading of 'TC without ECN' differ (C21's subject) accept both readings and are counted separately",
 		"maximal quoting ('as much as possible') is recorded (coverage.quotes_shorter_than_possible), not judged: the statement only bounds the size",
-		"forwarding key, addresses and payload bytes are fixed constants; one router host address (IPv4)",
+		"forwarding key, addresses and payload bytes are fixed constants; two router host addresses (one IPv4, one IPv6)",
 	}
 	r.Finish(6)
 }
